@@ -115,6 +115,8 @@ def e2e_suite(ctx: Ctx, n: int) -> None:
             fclass = None
             if multi and round_trip(spec):
                 fclass = "framework-round-trip-chain"
+            elif multi and max([0] + [sum(1 for t_ in exp["steps"] if t_["kind"] == "tfs" and t_["to"] == st_["to"]) for st_ in exp["steps"] if st_["kind"] == "tfs"]) >= 2:
+                fclass = "several-transform-steps-to-one-framework"
             elif multi and has_opts:
                 # the planner keeps one transform step per (from, to, group pair): option variants of the producer share it
                 fclass = "multi-framework-request-with-option-variants"
